@@ -66,6 +66,28 @@ class NT(typing.NamedTuple):
     q: tuple[int, ...] = ()
 
 @dataclasses.dataclass
+class BaseRec:
+    a: int = 0
+
+@dataclasses.dataclass
+class SubRec(BaseRec):
+    b: str = "x"
+    c: list[int] = dataclasses.field(default_factory=list)
+
+class PlainBase:
+    a: int
+    def __init__(self, a=0):
+        self.a = a
+    def __eq__(self, o):
+        return type(o) is type(self) and vars(o) == vars(self)
+
+class PlainSub(PlainBase):
+    b: str
+    def __init__(self, a=0, b="x"):
+        super().__init__(a)
+        self.b = b
+
+@dataclasses.dataclass
 class Priv:
     name: str
     _rev: int = 0
@@ -160,6 +182,11 @@ TYPES = {
     "Literal[1]": ("typing.Literal[1]", ["1", "True"], ["1", "True", "1.0", "'1'"]),
     # a field the generic item iteration skips on the way out but accepts on the way in
     "Priv": ("Priv", ["Priv('a', 5)", "Priv('b')"], ["{'name': 'a', '_rev': '5'}", "{'name': 'b'}", "'{\"name\": \"a\", \"_rev\": 7}'", "[('name', 'c'), ('_rev', 9)]"]),
+    # a class and its subclass that adds fields: whichever is used first must not decide what the other yields
+    "BaseRec": ("BaseRec", ["BaseRec(1)"], ["{'a': '1'}", "BaseRec(2)", "SubRec(3, 'y', [1])"]),
+    "SubRec": ("SubRec", ["SubRec(1, 'y', [2])", "SubRec(2)"], ["{'a': '1', 'b': 2, 'c': ['3']}", "SubRec(4, 'z', [5])"]),
+    "PlainBase": ("PlainBase", ["PlainBase(1)"], ["{'a': '1'}", "PlainBase(2)"]),
+    "PlainSub": ("PlainSub", ["PlainSub(1, 'y')"], ["{'a': '1', 'b': 2}", "PlainSub(3, 'z')"]),
     "Optional[int]": ("typing.Optional[int]", ["None", "3"], ["None", "'3'", "memoryview(b'3')", "b'3'", "3"]),
     "Optional[list[int]]": ("typing.Optional[list[int]]", ["None", "[1]"], ["None", "'[1]'", "[1]"]),
     "list[int] | None": ("list[int] | None", ["None", "[1]"], ["None", "'[1]'", "[1]"]),
@@ -199,6 +226,7 @@ PARTNERS = [
     {"Union[int, str]", "Union[str, int]"}, {"int | None | str", "str | None | int"}, {"Literal[1, 2]", "Literal[2, 1]"},
     {"Optional[list[int]]", "list[int] | None"}, {"list[int]", "AL"}, {"dict[str, list[int]]", "SAL"}, {"'Item'@A", "'Item'@B"},
     {"dict[str, int]", "NTy"}, {"Literal[1, 'a']", "Literal[True, 'a']"}, {"Literal[True]", "Literal[1]"},
+    {"BaseRec", "SubRec"}, {"PlainBase", "PlainSub"},
 ]
 
 def _snap(x):
@@ -506,6 +534,18 @@ def machine(col, seed, n_examples, steps):
                 self.hist.append(["mutate-input", name, how])
                 self.dirty = True
                 col.label("op:mutate-input")
+
+        @rule(g=st.integers(0, len(PARTNERS) - 1), flip=st.booleans(), op=st.sampled_from(["marshal", "unmarshal", "encode"]), i=st.integers(0, 7))
+        def both_of_a_pair(self, g, flip, op, i):
+            """the two members of an equal-but-distinct / base-and-subclass pair, one straight after the other"""
+            grp = sorted(PARTNERS[g], reverse=flip)
+            col.label("op:pair-sequence")
+            for key in grp:
+                if key.startswith("'Item'@") and op == "encode":
+                    continue
+                srcs = TYPES[key][1] if op != "unmarshal" else TYPES[key][2] + TYPES[key][1]
+                src = srcs[i % len(srcs)]
+                self._call(op, key, eval(src, pool()), src)  # noqa: S307
 
         @rule(key=st.sampled_from(sorted(BROKEN)), i=st.integers(0, 3), op=st.sampled_from(["marshal", "encode"]))
         def fail_repair_retry(self, key, i, op):
